@@ -7,7 +7,6 @@ import (
 	"fmt"
 	"math"
 	"math/big"
-	"slices"
 	"sort"
 	"strings"
 
@@ -52,11 +51,6 @@ var nameTable = []nameInfo{
 
 var nameOf = map[int64]v1.ResourceName{}
 var idOf = map[v1.ResourceName]int64{}
-
-const (
-	sigPodLevelResize = "C15:pod-level-resize-status-ignored"
-	sigDRAClaims      = "C15:dra-node-allocatable-claims-ignored"
-)
 
 func init() {
 	api.IgnoredDevicesList.Set([]string{"volcano.sh/vgpu-number", "hugepages-64Ki"})
@@ -598,12 +592,6 @@ func (p podT) untrackedPodLevel() bool {
 	return false
 }
 
-func sameRequest(up, vc *api.Resource) bool {
-	u := up.Clone()
-	u.AddScalar(v1.ResourcePods, 1)
-	return vc.ScalarResources != nil && slices.Equal(encRes(u), encRes(vc))
-}
-
 func laws(sel int, in, got []int64, law func(lsel int, lin []int64, sig string)) {
 	c := decode(in)
 	p := c.pod
@@ -622,26 +610,9 @@ func laws(sel int, in, got []int64, law func(lsel int, lin []int64, sig string))
 		law(102, cat(encRes(r.upRes), encRes(r.vc), encRes(r.rq), encRes(r.irq)), "")
 		return
 	}
-	sig := ""
-	if !sameRequest(r.upRes, r.vc) {
-		// is the difference exactly one of the documented classes?  re-ask upstream
-		// with the option volcano has no counterpart for switched off
-		pod := buildPod(p)
-		o := upstreamOpts()
-		o.InPlacePodLevelResourcesVerticalScalingEnabled = false
-		if sameRequest(api.NewResource(helpers.PodRequests(pod, o)), r.vc) {
-			sig = sigPodLevelResize
-		} else {
-			o = upstreamOpts()
-			o.UseDRANodeAllocatableResourceClaimStatus = false
-			if sameRequest(api.NewResource(helpers.PodRequests(pod, o)), r.vc) {
-				sig = sigDRAClaims
-			}
-		}
-	}
-	law(101, cat(encRes(r.upRes), encRes(r.vc), encRes(r.rq), encRes(r.irq)), sig)
+	law(101, cat(encRes(r.upRes), encRes(r.vc), encRes(r.rq), encRes(r.irq)), "")
 	// the same in kube-scheduler's units, not going through volcano's NewResource
-	law(103, cat([]int64{r.kubeMilliCPU, r.kubeMemory}, encRes(r.vc), encRes(r.rq)), sig)
+	law(103, cat([]int64{r.kubeMilliCPU, r.kubeMemory}, encRes(r.vc), encRes(r.rq)), "")
 }
 
 // ---------- generators ----------
@@ -947,9 +918,9 @@ func gen(rng *vh.Rng, n int, emit func(id string, sel int, in []int64, kind stri
 	stream("valid/spec-only", n, genCfg{podLevel: 25, podsName: true}, nil)
 	stream("valid/resize-status", n, genCfg{status: true, podLevel: 25}, nil)
 	stream("valid/pod-level", n/2+1, genCfg{status: true, podLevel: 100}, func(c *caseT) { c.plr = true })
-	// the two documented divergences (known findings): law cases carry a sig
-	stream("finding/pod-level-resize-status", n/4+1, genCfg{podLevel: 100, podStatus: true, status: true}, func(c *caseT) { c.plr = true })
-	stream("finding/dra-claims", n/8+1, genCfg{podLevel: 20, claims: true}, func(c *caseT) { c.dra = true })
+	// the two divergences repaired by the C15 fix: commits (kept as regression streams)
+	stream("valid/pod-level-resize-status", n/4+1, genCfg{podLevel: 100, podStatus: true, status: true}, func(c *caseT) { c.plr = true })
+	stream("valid/dra-claims", n/8+1, genCfg{podLevel: 20, claims: true}, func(c *caseT) { c.dra = true })
 	// outside the stated assumptions: both models are still tied to their code
 	stream("informative/finer-than-grid", n/4+1, genCfg{status: true, podLevel: 25, fine: true}, nil)
 	stream("malformed/negative", n/8+1, genCfg{status: true, podLevel: 25, negative: true}, nil)
